@@ -394,20 +394,33 @@ def replay_builder(seq):
     return b
 
 
-def core_sequences(length):
+def extensions(seq):
+    for letter in LETTERS:
+        for pl in PLACEMENTS:
+            if not seq and pl != "new":
+                continue
+            b = replay_builder(seq)
+            if b.add(ALPHABET[letter], pl):
+                yield seq + ((letter, pl),)
+
+
+def core_sequences(length, shard, nshards, rng, sample):
+    """lengths 1..3 completely: levels 1 and 2 are built by every shard (cheap) and judged by index modulo; each shard then
+    extends only its share of the length-2 prefixes to length 3 and, for length 4, samples the extensions of those"""
     level = [()]
-    for depth in range(length):
-        nxt = []
-        for seq in level:
-            for letter in LETTERS:
-                for pl in PLACEMENTS:
-                    if not seq and pl != "new":
-                        continue
-                    b = replay_builder(seq)
-                    if b.add(ALPHABET[letter], pl):
-                        nxt.append(seq + ((letter, pl),))
-        level = nxt
-        yield depth + 1, level
+    for depth in (1, 2):
+        level = [ext for seq in level for ext in extensions(seq)]
+        yield depth, [x for k, x in enumerate(level) if k % nshards == shard], True
+        if depth == length:
+            return
+    for seq in [x for k, x in enumerate(level) if k % nshards == shard]:
+        exts = list(extensions(seq))
+        yield 3, exts, True
+        if length >= 4:
+            for seq3 in exts:
+                picked = [ext for ext in extensions(seq3) if rng.random() < sample]
+                if picked:
+                    yield 4, picked, False
 
 
 TAGS = [("X", eg, c, k) for eg in (1, 2, 3, 4) for c in (0, 1, 15) for k in ("v4", "v6")] + \
@@ -486,7 +499,7 @@ def count_placements(ctx, seq):
 def shards(tier, seed):
     n = 16
     out = [dict(shard=i, nshards=n, seed=seed, mode="core", length=3 if tier == "quick" else 4,
-                sample=None if tier == "quick" else 0.08) for i in range(n)]
+                sample=None if tier == "quick" else 0.02) for i in range(n)]
     out += [dict(shard=100 + i, seed=seed, mode="random", n=300 if tier == "quick" else 40000) for i in range(n)]
     return out
 
@@ -494,21 +507,18 @@ def shards(tier, seed):
 def run(spec, ctx):
     if spec["mode"] == "core":
         rng = random.Random(f"C06core/{spec['seed']}/{spec['shard']}")
-        idx = 0
-        for depth, level in core_sequences(spec["length"]):
-            full = depth <= 3
-            for seq in level:
-                idx += 1
-                if idx % spec["nshards"] != spec["shard"]:
-                    continue
-                if not full and rng.random() > spec["sample"]:
-                    continue
+        shown = 0
+        k = 0
+        for depth, items, full in core_sequences(spec["length"], spec["shard"], spec["nshards"], rng, spec["sample"] or 0.0):
+            for seq in items:
+                k += 1
                 b = replay_builder(seq)
-                collect = 0 if idx % 3 else 2.0 ** -8
+                collect = 0 if k % 3 else 2.0 ** -8
                 nt = judge(ctx, b, "core", dict(kind="core", seq=[list(x) for x in seq], collect=collect), full, collect)
                 count_placements(ctx, seq)
                 ctx.case(("core", seq), nt, sample=dict(actions=[list(x) for x in seq], collection_timeout=collect)
-                         if depth == 3 and idx < 40 * spec["nshards"] else None)
+                         if depth == 3 and shown < 2 else None)
+                shown += depth == 3
         return
     base = f"C06/{spec['seed']}/{spec['shard']}"
     for i in range(spec["n"]):
